@@ -163,9 +163,17 @@ class Ref:
             if w[1] in self.sessions:
                 self.sessions.discard(w[1])
                 self.expect("session", "OK", res)
+        elif o == "nvcheck":
+            self.counts["phantom"] = self.counts.get("phantom", 0) + 1
+            if not res.startswith("stale 1"):
+                self.fail.append(("phantom", self.opno, "an insert into the interval the read covered left every collected (version,node) pair fresh: " + res))
         elif o == "put":
             n, k, v, uniq = unhex(w[2]), unhex(w[3]), unhex(w[4]), w[6] == "1"
             got = res.split(" mod ")[0]
+            if " vchg " in res:
+                self.counts["vchg"] = self.counts.get("vchg", 0) + 1
+                if " vchg ok" not in res:
+                    self.fail.append(("vchg", self.opno, "the border nodes whose version changed are not exactly the reported ones: " + res))
             if n not in self.st:
                 self.expect("storage", "WARN_STORAGE_NOT_EXIST", got)
             elif uniq and k in self.st[n]:
